@@ -3,7 +3,9 @@
  * Op file (see lean/Driver/Fail.lean for the same grammar):
  *   new <id> arr|lst <ty> <v>* | new <id> tup heap|stack <v>* | new <id> tab|tre <kty> <vty> (<k> <v>)* |
  *   new <id> str heap|stack|static s<text> | new <id> rng a b c | new <id> slc <base> a b c | new <id> zip <a> <b> |
- *   new <id> val heap|stack|static <v>
+ *   new <id> val heap|stack|static <v> |
+ *   new <id> narr|nlst arr|lst|tab <c>*      an Array / List whose elements are Arrays / Lists / Tables of Int (c = c<int>.<int>…)
+ *   new <id> junk dead|bad                   an object whose header carries the freed-object magic number / a foreign one
  *   get|set|mem|rem|push|pushat|pop|popat|resize|len|concat|append|assign|print|typeof|cast|dealloc|deallocelem <id|N> ...
  * values: i<int> s<alnum*> p<int> N        types: int str plain
  *
@@ -100,8 +102,13 @@ static int key_cmp(const HVal* a, const HVal* b) {
 }
 
 /* ------------------------------------------------------------------------------------------------ objects */
-enum { K_NONE, K_ARR, K_LST, K_TUP, K_TAB, K_TRE, K_STR, K_RNG, K_SLC, K_ZIP, K_VAL };
-static const char* kind_name[] = { "none", "array", "list", "tuple", "table", "tree", "string", "range", "slice", "zip", "value" };
+enum { K_NONE, K_ARR, K_LST, K_TUP, K_TAB, K_TRE, K_STR, K_RNG, K_SLC, K_ZIP, K_VAL, K_NARR, K_NLST, K_JUNK };
+static const char* kind_name[] = { "none", "array", "list", "tuple", "table", "tree", "string", "range", "slice", "zip", "value", "narray", "nlist", "junk" };
+#define NEST(h) ((h)->kind == K_NARR || (h)->kind == K_NLST)
+#define CMAX 16
+#define MAXNEST 64
+typedef struct { int n; int64_t v[CMAX]; } CVal;            /* a container of Int (a Table maps each to itself) */
+typedef struct { int n; CVal e[MAXNEST]; } NShadow;
 #define MAXN 512
 typedef struct {
   int n; HVal v[MAXN]; HVal k[MAXN];   /* sequences: v[0..n); maps: k[i] -> v[i]; strings: v[0].s is unused, text in str */
@@ -112,9 +119,40 @@ typedef struct {
   int base, za, zb;                     /* slice base id, zip ids */
   int64_t r0, r1, r2;                   /* reference copy of a Range / Slice range */
   Shadow* sh;
+  int ek; NShadow* nsh;                 /* nested container: element kind 'a' 'l' 't', reference contents */
+  unsigned char junk_img[64];           /* junk object: image of header + body taken at construction */
 } HObj;
 #define NOBJ 64
 static HObj objs[NOBJ];
+
+/* container token: `c` followed by dot-separated ints (`c` alone: empty) */
+static int parse_cval(const char* t, CVal* c) {
+  memset(c, 0, sizeof *c);
+  if (t[0] != 'c') return 0;
+  t++; if (!*t) return 1;
+  char buf[256]; if (strlen(t) >= sizeof buf) return 0; strcpy(buf, t);
+  char* save; for (char* q = strtok_r(buf, ".", &save); q; q = strtok_r(NULL, ".", &save)) {
+    if (c->n >= CMAX || !parse_small(q, &c->v[c->n])) return 0; c->n++; }
+  /* "c1..2" or a trailing dot would be read differently by the two sides: refuse */
+  if (strstr(t, "..") || t[0] == '.' || t[strlen(t) - 1] == '.') return 0;
+  return 1;
+}
+static int parse_ek(const char* t) { return !strcmp(t, "arr") ? 'a' : !strcmp(t, "lst") ? 'l' : !strcmp(t, "tab") ? 't' : 0; }
+static var ek_type(int ek) { return ek == 'a' ? Array : ek == 'l' ? List : Table; }
+static const char* ek_label(int ek) { return ek == 'a' ? "Array" : ek == 'l' ? "List" : "Table"; }
+/* a fresh heap container of the given kind holding the Ints of `c` */
+static var mk_inner(int ek, const CVal* c) {
+  var args = new(Tuple); push(args, Int); if (ek == 't') push(args, Int);
+  for (int i = 0; i < c->n; i++) { push(args, new(Int, $I(c->v[i]))); if (ek == 't') push(args, new(Int, $I(c->v[i]))); }
+  return new_with(ek_type(ek), args);
+}
+/* the reference reads a Table element as the sorted set of its keys */
+static void cval_norm(int ek, CVal* c) {
+  if (ek != 't') return;
+  for (int i = 1; i < c->n; i++) { int64_t x = c->v[i]; int j = i - 1; while (j >= 0 && c->v[j] > x) { c->v[j+1] = c->v[j]; j--; } c->v[j+1] = x; }
+  int m = 0; for (int i = 0; i < c->n; i++) if (m == 0 || c->v[m-1] != c->v[i]) c->v[m++] = c->v[i];
+  c->n = m;
+}
 
 static var fake_obj(var type, size_t sz, int alloc) {
   char* m = calloc(1, sizeof(struct Header) + sz);
@@ -150,10 +188,48 @@ static int tree_walk(struct Tree* m, var node, int n) {
   return tree_walk(m, *Tree_Right(m, node), n);
 }
 
+/* one element of a nested container, from its private struct: `<type>(<items>)` / `<ktype>:<vtype>(<k:v>…)` */
+static char* inner_wb(var e, int ek, char* p) {
+  if (ek == 'a') { struct Array* a = e; p += sprintf(p, "%s(", type_label(a->type));
+    for (size_t i = 0; i < a->nitems && i < CMAX + 2; i++) { HVal v; rd(Array_Item(a, i), &v); if (i) *p++ = ','; p += val_text(&v, p); } }
+  else if (ek == 'l') { struct List* l = e; p += sprintf(p, "%s(", type_label(l->type)); int i = 0;
+    for (var it = l->head; it && i < CMAX + 2; it = *List_Next(l, it), i++) { HVal v; rd(it, &v); if (i) *p++ = ','; p += val_text(&v, p); } }
+  else { struct Table* t = e; p += sprintf(p, "%s:%s(", type_label(t->ktype), type_label(t->vtype)); int n = 0; HVal ks[CMAX + 2], vs[CMAX + 2];
+    for (size_t i = 0; i < t->nslots && n < CMAX + 2; i++) if (Table_Key_Hash(t, i)) { rd(Table_Key(t, i), &ks[n]); rd(Table_Val(t, i), &vs[n]); n++; }
+    pairs_sort(ks, vs, n);
+    for (int i = 0; i < n; i++) { if (i) *p++ = ','; p += val_text(&ks[i], p); *p++ = ':'; p += val_text(&vs[i], p); } }
+  *p++ = ')'; *p = 0; return p;
+}
+/* the same through the public interface: iter_type / key_type, len, get, iteration */
+static char* inner_pub(var e, int ek, char* p, volatile int* ok) {
+  if (ek == 't') {
+    p += sprintf(p, "%s:%s(", type_label(key_type(e)), type_label(val_type(e))); int n = 0; HVal ks[CMAX + 2], vs[CMAX + 2];
+    foreach (k in e) { if (n < CMAX + 2) { rd(k, &ks[n]); rd(get(e, k), &vs[n]); n++; } }
+    if ((size_t)n != len(e)) *ok = 0;
+    pairs_sort(ks, vs, n);
+    for (int i = 0; i < n; i++) { if (i) *p++ = ','; p += val_text(&ks[i], p); *p++ = ':'; p += val_text(&vs[i], p); }
+  } else {
+    p += sprintf(p, "%s(", type_label(iter_type(e))); size_t n = len(e), m = 0;
+    for (size_t i = 0; i < n && i < CMAX + 2; i++) { HVal v; rd(get(e, $I(i)), &v); if (i) *p++ = ','; p += val_text(&v, p); }
+    foreach (it in e) { HVal a, b; rd(it, &a); if (m < n) { rd(get(e, $I(m)), &b); if (!val_eq(&a, &b)) *ok = 0; } m++; if (m > CMAX + 2) break; }
+    if (m != n) *ok = 0;
+  }
+  *p++ = ')'; *p = 0; return p;
+}
+
 /* white-box dump from the private structs */
 static void dump_wb(HObj* h, Dump* d) {
   d->head[0] = d->extra[0] = d->tail[0] = 0;
   switch (h->kind) {
+    case K_NARR: { struct Array* a = h->obj; sprintf(d->head, "NA %s n=%zu", ek_label(h->ek), a->nitems); sprintf(d->extra, " cap=%zu", a->nslots);
+      char* p = d->tail; *p++ = ' '; *p++ = '[';
+      for (size_t i = 0; i < a->nitems && i < MAXNEST; i++) { if (i) *p++ = ';'; p = inner_wb(Array_Item(a, i), h->ek, p); }
+      *p++ = ']'; *p = 0; break; }
+    case K_NLST: { struct List* l = h->obj; sprintf(d->head, "NL %s n=%zu", ek_label(h->ek), l->nitems);
+      char* p = d->tail; *p++ = ' '; *p++ = '['; int i = 0;
+      for (var it = l->head; it && i < MAXNEST; it = *List_Next(l, it), i++) { if (i) *p++ = ';'; p = inner_wb(it, h->ek, p); }
+      *p++ = ']'; *p = 0; break; }
+    case K_JUNK: sprintf(d->head, "J %s", h->ek == 'd' ? "dead" : "bad"); break;
     case K_ARR: { struct Array* a = h->obj; int n = (int)a->nitems; if (n > MAXN) n = MAXN;
       sprintf(d->head, "A %s n=%zu", type_label(a->type), a->nitems); sprintf(d->extra, " cap=%zu", a->nslots);
       for (int i = 0; i < n; i++) rd(Array_Item(a, i), &tv[i]);
@@ -221,6 +297,23 @@ static int dump_pub(HObj* h, Dump* d) {
       if (exc) return 0;
       sprintf(d->head, "S %s len=%zu", alloc_name(h->alloc), (size_t)n); snprintf(d->tail, 4096, " \"%s\"", s);
       return strlen(s) == n; }
+    case K_NARR: case K_NLST: {
+      volatile size_t n = 0; volatile int m = 0; char* volatile p = d->tail;
+      V_TRY(exc, {
+        n = len(h->obj);
+        if (type_of(h->obj) != (h->kind == K_NARR ? Array : List) || iter_type(h->obj) != ek_type(h->ek)) ok = 0;
+        *p++ = ' '; *p++ = '[';
+        for (size_t i = 0; i < n && i < MAXNEST; i++) { if (i) *p++ = ';'; p = inner_pub(get(h->obj, $I(i)), h->ek, p, &ok); }
+        *p++ = ']'; *p = 0;
+        foreach (it in h->obj) { if ((size_t)m < n && it != get(h->obj, $I(m))) ok = 0; m++; if (m > MAXNEST) break; }
+        if ((size_t)m != n) ok = 0;
+      });
+      if (exc) return 0;
+      sprintf(d->head, "%s %s n=%zu", h->kind == K_NARR ? "NA" : "NL", ek_label(h->ek), (size_t)n);
+      return ok; }
+    case K_JUNK: { Dump w; dump_wb(h, &w); strcpy(d->head, w.head);
+      /* "changes nothing": the bytes of the junk object are what they were at construction */
+      return memcmp((char*)h->obj - sizeof(struct Header), h->junk_img, sizeof(struct Header) + sizeof(struct Int)) == 0; }
     default: { Dump w; dump_wb(h, &w); strcpy(d->head, w.head); strcpy(d->tail, w.tail); return 1; }
   }
 }
@@ -237,11 +330,21 @@ static void dump_ref(HObj* h, Dump* d) {
       sprintf(d->head, "%c %s %s n=%d", h->kind == K_TAB ? 'H' : 'R', type_label(ty_type(h->kty)), type_label(ty_type(h->vty)), s->n);
       map_tail(d->tail, s->k, s->v, s->n); break;
     case K_STR: sprintf(d->head, "S %s len=%zu", alloc_name(h->alloc), strlen(s->str)); snprintf(d->tail, 4096, " \"%s\"", s->str); break;
+    case K_NARR: case K_NLST: { NShadow* ns = h->nsh;
+      sprintf(d->head, "%s %s n=%d", h->kind == K_NARR ? "NA" : "NL", ek_label(h->ek), ns->n);
+      char* p = d->tail; *p++ = ' '; *p++ = '[';
+      for (int i = 0; i < ns->n; i++) { if (i) *p++ = ';';
+        p += sprintf(p, h->ek == 't' ? "Int:Int(" : "Int(");
+        for (int j = 0; j < ns->e[i].n; j++) { if (j) *p++ = ','; p += h->ek == 't' ? sprintf(p, "i%" PRId64 ":i%" PRId64, ns->e[i].v[j], ns->e[i].v[j]) : sprintf(p, "i%" PRId64, ns->e[i].v[j]); }
+        *p++ = ')'; }
+      *p++ = ']'; *p = 0; break; }
     default: { Dump w; dump_wb(h, &w); strcpy(d->head, w.head); strcpy(d->tail, w.tail); }
   }
 }
 /* re-read the reference from the real object (after a reported failure, so that one defect is reported once) */
+static void nshadow_sync(HObj* h);
 static void shadow_sync(HObj* h) {
+  if (NEST(h)) { nshadow_sync(h); return; }
   Shadow* s = h->sh; if (!s) return;
   switch (h->kind) {
     case K_ARR: { struct Array* a = h->obj; s->n = (int)(a->nitems > MAXN ? MAXN : a->nitems); for (int i = 0; i < s->n; i++) rd(Array_Item(a, i), &s->v[i]); break; }
@@ -252,6 +355,17 @@ static void shadow_sync(HObj* h) {
     case K_STR: snprintf(s->str, sizeof s->str, "%s", ((struct String*)h->obj)->val); break;
   }
 }
+static void cval_read(var e, int ek, CVal* c) {
+  c->n = 0;
+  if (ek == 'a') { struct Array* a = e; for (size_t i = 0; i < a->nitems && c->n < CMAX; i++) { HVal v; rd(Array_Item(a, i), &v); c->v[c->n++] = v.i; } }
+  else if (ek == 'l') { struct List* l = e; for (var it = l->head; it && c->n < CMAX; it = *List_Next(l, it)) { HVal v; rd(it, &v); c->v[c->n++] = v.i; } }
+  else { struct Table* t = e; for (size_t i = 0; i < t->nslots && c->n < CMAX; i++) if (Table_Key_Hash(t, i)) { HVal v; rd(Table_Key(t, i), &v); c->v[c->n++] = v.i; } cval_norm('t', c); }
+}
+static void nshadow_sync(HObj* h) {
+  NShadow* ns = h->nsh; ns->n = 0;
+  if (h->kind == K_NARR) { struct Array* a = h->obj; for (size_t i = 0; i < a->nitems && ns->n < MAXNEST; i++) cval_read(Array_Item(a, i), h->ek, &ns->e[ns->n++]); }
+  else { struct List* l = h->obj; for (var it = l->head; it && ns->n < MAXNEST; it = *List_Next(l, it)) cval_read(it, h->ek, &ns->e[ns->n++]); }
+}
 
 /* ------------------------------------------------------------------------------------------------ ops */
 enum { OP_GET, OP_SET, OP_MEM, OP_REM, OP_PUSH, OP_PUSHAT, OP_POP, OP_POPAT, OP_RESIZE, OP_LEN, OP_CONCAT, OP_APPEND, OP_ASSIGN,
@@ -260,6 +374,7 @@ static const char* op_name[] = { "get", "set", "mem", "rem", "push", "pushat", "
        "print", "typeof", "cast", "dealloc", "deallocelem" };
 typedef struct {
   int code; HVal a, b; long n;
+  int src_cont; CVal cv;           /* set / push / pushat on a nested container: the source is a container token */
   int src_id;                      /* concat: object id, or -1 when `a` is the (scalar) source */
   int nfmt; char fkind[16]; char ftext[16][20]; int nargs; HVal args[16];
   char tname[24];
@@ -271,10 +386,17 @@ static const char* E_IOOB = "IndexOutOfBoundsError", *E_KEY = "KeyError", *E_VAL
 static int parse_op(int code, char** w, int nw, Op* op) {   /* w: tokens after the object id */
   memset(op, 0, sizeof *op); op->code = code; op->src_id = -1;
   switch (code) {
-    case OP_GET: case OP_MEM: case OP_REM: case OP_PUSH: case OP_POPAT: case OP_APPEND: case OP_ASSIGN:
+    case OP_PUSH: case OP_APPEND:
+      if (nw == 1 && w[0][0] == 'c') { op->src_cont = 1; return parse_cval(w[0], &op->cv); }
       return nw == 1 && parse_val(w[0], &op->a);
-    case OP_SET: return nw == 2 && parse_val(w[0], &op->a) && parse_val(w[1], &op->b);      /* a = key, b = value */
-    case OP_PUSHAT: return nw == 2 && parse_val(w[0], &op->b) && parse_val(w[1], &op->a);   /* b = value, a = key */
+    case OP_GET: case OP_MEM: case OP_REM: case OP_POPAT: case OP_ASSIGN:
+      return nw == 1 && parse_val(w[0], &op->a);
+    case OP_SET:                                                                             /* a = key, b = value */
+      if (nw == 2 && w[1][0] == 'c') { op->src_cont = 1; return parse_val(w[0], &op->a) && parse_cval(w[1], &op->cv); }
+      return nw == 2 && parse_val(w[0], &op->a) && parse_val(w[1], &op->b);
+    case OP_PUSHAT:                                                                          /* b = value, a = key */
+      if (nw == 2 && w[0][0] == 'c') { op->src_cont = 1; return parse_cval(w[0], &op->cv) && parse_val(w[1], &op->a); }
+      return nw == 2 && parse_val(w[0], &op->b) && parse_val(w[1], &op->a);
     case OP_POP: case OP_LEN: case OP_TYPEOF: case OP_DEALLOC: return nw == 0;
     case OP_RESIZE: return nw == 1 && parse_nat(w[0], &op->n) && op->n <= 64;
     case OP_DEALLOCELEM: return nw == 1 && parse_nat(w[0], &op->n);
@@ -309,7 +431,8 @@ static var type_by_name(const char* n) {
 static const char* obj_type_name(HObj* h) {
   switch (h->kind) { case K_ARR: return "Array"; case K_LST: return "List"; case K_TUP: return "Tuple"; case K_TAB: return "Table";
     case K_TRE: return "Tree"; case K_STR: return "String"; case K_RNG: return "Range"; case K_SLC: return "Slice"; case K_ZIP: return "Zip";
-    case K_VAL: return h->ty == 'i' ? "Int" : "Plain"; }
+    case K_VAL: return h->ty == 'i' ? "Int" : "Plain";
+    case K_NARR: return "Array"; case K_NLST: return "List"; }
   return "?";
 }
 
@@ -402,6 +525,7 @@ static const char* ref_print(HObj* h, Op* op, RefOut* out) {
 static const char* ref_apply(HObj* h, Op* op, RefOut* out) {
   Shadow* s = h->sh; int idx = 0, at = -1; const char* e;
   out->text[0] = 0; out->from_assign = 0; out->no_expectation = 0;
+  if (h->kind == K_JUNK) return E_VALUE;     /* Type_Of refuses the header before anything else is looked at */
   if (op->code == OP_TYPEOF) { strcpy(out->text, obj_type_name(h)); return NULL; }
   if (op->code == OP_CAST) return strcmp(op->tname, obj_type_name(h)) == 0 ? NULL : E_VALUE;
   if (op->code == OP_DEALLOC || op->code == OP_DEALLOCELEM) return E_RES;
@@ -452,6 +576,31 @@ static const char* ref_apply(HObj* h, Op* op, RefOut* out) {
           if (op->a.tag == 'N') return E_VALUE;
           if (h->kind == K_LST && op->a.tag == 's' && op->a.s[0] == 0) { out->no_expectation = 1; return NULL; }
           return E_CLASS;
+      }
+      return E_CLASS; }
+    case K_NARR: case K_NLST: {
+      /* documented: the index is validated, then the element is assigned from the source — which must be a container; a source
+         that is not raises (NULL: ValueError, anything else: ClassError) and nothing changes */
+      NShadow* ns = h->nsh; const HVal* srcv = op->code == OP_SET || op->code == OP_PUSHAT ? &op->b : &op->a;
+      const char* bad_src = op->src_cont ? NULL : srcv->tag == 'N' ? E_VALUE : E_CLASS;
+      CVal cv = op->cv; cval_norm(h->ek, &cv);
+      switch (op->code) {
+        case OP_GET: if ((e = ref_index(ns->n, &op->a, &idx))) return e; sprintf(out->text, "%d", ns->e[idx].n); return NULL;
+        case OP_SET: if ((e = ref_index(ns->n, &op->a, &idx))) return e;
+          if (bad_src) { out->from_assign = 1; return bad_src; } ns->e[idx] = cv; return NULL;
+        case OP_PUSH: case OP_APPEND:
+          if (bad_src) { out->from_assign = 1; return bad_src; } if (ns->n < MAXNEST) ns->e[ns->n++] = cv; return NULL;
+        case OP_PUSHAT:
+          if (op->a.tag == 'N') return E_VALUE; if (op->a.tag != 'i') return E_CLASS;
+          if (h->kind == K_NARR) { __int128 i = op->a.i; if (i < -(__int128)(ns->n + 1) || i > ns->n) return E_IOOB; idx = (int)(i < 0 ? ns->n + 1 + i : i); }
+          else if (op->a.i == 0) idx = 0; else if ((e = ref_index(ns->n, &op->a, &idx))) return e;
+          if (bad_src) { out->from_assign = 1; return bad_src; }
+          if (ns->n < MAXNEST) { memmove(&ns->e[idx + 1], &ns->e[idx], sizeof(CVal) * (ns->n - idx)); ns->e[idx] = cv; ns->n++; } return NULL;
+        case OP_POP: if (ns->n == 0) return E_IOOB; ns->n--; return NULL;
+        case OP_POPAT: if ((e = ref_index(ns->n, &op->a, &idx))) return e;
+          memmove(&ns->e[idx], &ns->e[idx + 1], sizeof(CVal) * (ns->n - idx - 1)); ns->n--; return NULL;
+        case OP_RESIZE: if (op->n < ns->n) ns->n = (int)op->n; return NULL;
+        case OP_LEN: sprintf(out->text, "%d", ns->n); return NULL;
       }
       return E_CLASS; }
     case K_TAB: case K_TRE:
@@ -521,8 +670,11 @@ static void ret_val(var r, char* out) {
 static var do_call(var target, HObj* h, Op* op, char* res) {
   var exc = NULL; char val[300] = "";
   var A = mk(&op->a), B = mk(&op->b);
+  if (op->src_cont && h) { var c = mk_inner(h->ek, &op->cv); if (op->code == OP_SET || op->code == OP_PUSHAT) B = c; else A = c; }
   switch (op->code) {
-    case OP_GET: V_TRY(exc, { var r = get(target, A); ret_val(r, val); }); break;
+    case OP_GET:
+      if (h && NEST(h)) { V_TRY(exc, { var r = get(target, A); sprintf(val, "%zu", len(r)); }); break; }   /* the element, observed through its length */
+      V_TRY(exc, { var r = get(target, A); ret_val(r, val); }); break;
     case OP_SET: V_TRY(exc, set(target, A, B)); break;
     case OP_MEM: V_TRY(exc, { bool r = mem(target, A); strcpy(val, r ? "true" : "false"); }); break;
     case OP_REM: V_TRY(exc, rem(target, A)); break;
@@ -619,6 +771,20 @@ static int do_new(int id, char** w, int nw, int lineno) {   /* w: tokens after t
   } else if (!strcmp(kind, "zip")) {
     long a, b; if (nw != 2 || !parse_nat(w[0], &a) || !parse_nat(w[1], &b) || a >= NOBJ || b >= NOBJ || !seq_shadow((int)a) || !seq_shadow((int)b) || objs[a].dead || objs[b].dead) return 0;
     h.kind = K_ZIP; h.za = (int)a; h.zb = (int)b; h.obj = new(Zip, objs[a].obj, objs[b].obj);
+  } else if (!strcmp(kind, "narr") || !strcmp(kind, "nlst")) {
+    if (nw < 1 || !(h.ek = parse_ek(w[0]))) return 0;
+    int n = nw - 1; if (n > 20) return 0;
+    h.kind = !strcmp(kind, "narr") ? K_NARR : K_NLST; h.nsh = calloc(1, sizeof(NShadow));
+    var args = new(Tuple); push(args, ek_type(h.ek));
+    for (int i = 0; i < n; i++) { CVal c; if (!parse_cval(w[1 + i], &c)) return 0; push(args, mk_inner(h.ek, &c)); cval_norm(h.ek, &c); h.nsh->e[i] = c; }
+    h.nsh->n = n;
+    h.obj = new_with(h.kind == K_NARR ? Array : List, args);
+  } else if (!strcmp(kind, "junk")) {
+    if (nw != 1 || (strcmp(w[0], "dead") && strcmp(w[0], "bad"))) return 0;
+    h.kind = K_JUNK; h.ek = w[0][0];
+    struct Int* x = fake_obj(Int, sizeof(struct Int), AllocHeap); x->val = 7;
+    header(x)->magic = h.ek == 'd' ? (var)0xDeadCe110 : (var)0x1234;      /* what dealloc leaves behind / not Cello's magic number */
+    h.obj = x; memcpy(h.junk_img, (char*)x - sizeof(struct Header), sizeof(struct Header) + sizeof(struct Int));
   } else if (!strcmp(kind, "val")) {
     HVal v; if (nw != 2 || !(h.alloc = parse_alloc(w[0])) || !parse_val(w[1], &v) || (v.tag != 'i' && v.tag != 'p')) return 0;
     h.kind = K_VAL; h.ty = v.tag;
@@ -638,10 +804,30 @@ static size_t real_len(HObj* h) {
     case K_TUP: { struct Tuple* t = h->obj; size_t n = 0; while (t->items && t->items[n] != Terminal) n++; return n; }
     case K_TAB: return ((struct Table*)h->obj)->nitems;
     case K_TRE: return ((struct Tree*)h->obj)->nitems;
+    case K_NARR: return ((struct Array*)h->obj)->nitems;
+    case K_NLST: return ((struct List*)h->obj)->nitems;
   }
   return 0;
 }
 static int excluded(HObj* h, Op* op) {
+  if (op->src_cont && !NEST(h)) return 1;                      /* container tokens are sources for nested containers only */
+  if (NEST(h)) {
+    const HVal* srcv = op->code == OP_SET || op->code == OP_PUSHAT ? &op->b : &op->a;
+    switch (op->code) {
+      case OP_SET: case OP_PUSH: case OP_APPEND: case OP_PUSHAT:
+        if (!op->src_cont && srcv->tag != 'i' && srcv->tag != 'p' && srcv->tag != 'N') return 1;
+        return (op->code != OP_SET) && real_len(h) >= 24;
+      case OP_GET: case OP_POP: case OP_POPAT: case OP_LEN: case OP_TYPEOF: case OP_CAST: return op->code == OP_CAST && !type_by_name(op->tname);
+      case OP_RESIZE: return h->kind == K_NLST && (size_t)op->n > real_len(h);      /* a List is not grown: zeroed containers */
+      default: return 1;                                     /* mem / rem / concat / assign / print / dealloc: not modelled */
+    }
+  }
+  if (h->kind == K_JUNK) {
+    if (op->code == OP_PRINT || op->code == OP_DEALLOCELEM) return 1;   /* an empty format returns before Type_Of is reached */
+    if (op->code == OP_CAST) return !type_by_name(op->tname);
+    if (op->code == OP_CONCAT && op->src_id >= 0) return !seq_shadow(op->src_id) || objs[op->src_id].dead;
+    return 0;
+  }
   if (op->code == OP_PRINT) {
     if (h->kind == K_STR) return (size_t)op->n > strlen(((struct String*)h->obj)->val);
     if (op->nfmt == 0 || op->fkind[0] == 'L') return 0;
@@ -668,6 +854,13 @@ static int bases_ok(HObj* h) {
   if (h->kind == K_SLC) return seq_shadow(h->base) && !objs[h->base].dead;
   if (h->kind == K_ZIP) return seq_shadow(h->za) && !objs[h->za].dead && seq_shadow(h->zb) && !objs[h->zb].dead;
   return 1;
+}
+static int poisons_nest(HObj* h, Op* op, int failed, int from_assign) {
+  /* abandoned after a set / Array push / push_at whose *source* was refused (the index was fine): territory of the assign and F15
+     findings.  A List push that fails leaves the list as it was. */
+  if (!failed || !from_assign) return 0;
+  if (op->code == OP_SET) return 1;
+  return h->kind == K_NARR && (op->code == OP_PUSH || op->code == OP_APPEND || op->code == OP_PUSHAT);
 }
 static int poisons(HObj* h, Op* op, int raised) {
   int cont = h->kind == K_ARR || h->kind == K_LST || h->kind == K_TAB || h->kind == K_TRE;
@@ -723,7 +916,7 @@ static void run_line(char* l, int lineno) {
   if (risky && probe_crashes(h->obj, h, &op)) { crashed = 1; strcpy(res, "ub"); n_crashed++; }
   else exc = do_call(h->obj, h, &op, res);
   n_ops++; if (exc) { n_raised++; count_exc(v_exc_name(exc)); }
-  int dies = poisons(h, &op, exc != NULL || crashed);
+  int dies = NEST(h) ? poisons_nest(h, &op, exc != NULL || crashed, ro.from_assign) : poisons(h, &op, exc != NULL || crashed);
   /* 4. after */
   if (dies) { O("%s | dead", res); }
   else { dump_wb(h, &wb1); O("%s | %s%s%s", res, wb1.head, wb1.extra, wb1.tail); }
@@ -732,7 +925,10 @@ static void run_line(char* l, int lineno) {
   const char* got = exc ? v_exc_name(exc) : NULL;
   if (crashed) {
     int cont = h->kind == K_ARR || h->kind == K_LST || h->kind == K_TUP || h->kind == K_TAB || h->kind == K_TRE;
-    if (cont && op.a.tag != 'N' && op.a.tag != 0 && ((code == OP_CONCAT && op.src_id < 0) || code == OP_ASSIGN))
+    const HVal* nsrc = code == OP_SET || code == OP_PUSHAT ? &op.b : &op.a;
+    if (NEST(h) && ro.from_assign && !op.src_cont && nsrc->tag != 'N')
+      X("sig=kf-c12-foreach-noniter line=%d what=%s %s with a source that is not a container: the element's assign runs `foreach` over an object without Iter (the call dies) instead of raising %s", lineno, kn, on, want ? want : "ClassError");
+    else if (cont && op.a.tag != 'N' && op.a.tag != 0 && ((code == OP_CONCAT && op.src_id < 0) || code == OP_ASSIGN))
       X("sig=kf-c12-foreach-noniter line=%d what=%s %s from an object without Iter: `foreach` reads through a NULL instance pointer (the call dies) instead of raising %s", lineno, kn, on, want ? want : "ClassError");
     else
       X("sig=c12-%s-%s-crash line=%d what=the call dies (signal / sanitizer report) instead of %s%s", kn, on, lineno, want ? "raising " : "completing", want ? want : "");
@@ -741,9 +937,9 @@ static void run_line(char* l, int lineno) {
   if (!ro.no_expectation) {
     if (want && !got) {
       X("sig=c12-%s-%s-exc line=%d what=invalid argument not reported: expected %s, got %s", kn, on, lineno, want, res);
-      n_x++; if (h->sh) shadow_sync(h);
+      n_x++; if (h->sh || h->nsh) shadow_sync(h);
     } else if (!want && got) {
-      X("sig=c12-%s-%s-exc line=%d what=valid operation raised %s", kn, on, lineno, got); n_x++; if (h->sh) shadow_sync(h);
+      X("sig=c12-%s-%s-exc line=%d what=valid operation raised %s", kn, on, lineno, got); n_x++; if (h->sh || h->nsh) shadow_sync(h);
     } else if (want && got && strcmp(want, got) != 0) {
       X("sig=c12-%s-%s-exc line=%d what=wrong exception: documented %s, raised %s", kn, on, lineno, want, got); n_x++;
     } else if (!want && !got && ro.text[0]) {
@@ -753,7 +949,12 @@ static void run_line(char* l, int lineno) {
   }
   if (dies) {
     /* the object is abandoned; what happened to it is still checked through `len` */
-    if (got && (h->kind == K_ARR || h->kind == K_LST || h->kind == K_TAB || h->kind == K_TRE) && code == OP_ASSIGN) {
+    if (got && NEST(h)) {
+      Dump after; int ok2 = dump_pub(h, &after);
+      if (ok2 && (strcmp(pub0.head, after.head) || strcmp(pub0.tail, after.tail))) {
+        const char* sig = code == OP_SET ? "kf-c12-assign-clears" : "kf-c12-array-push-type";
+        X("sig=%s line=%d what=%s %s raised %s and changed the object: `%s%s` -> `%s%s`", sig, lineno, kn, on, got, pub0.head, pub0.tail, after.head, after.tail); n_x++; }
+    } else if (got && (h->kind == K_ARR || h->kind == K_LST || h->kind == K_TAB || h->kind == K_TRE) && code == OP_ASSIGN) {
       var e2 = NULL; volatile size_t n = 0; V_TRY(e2, n = len(h->obj));
       char before[64]; snprintf(before, sizeof before, "%s", pub0.head);
       if (!e2 && h->sh && (int)n != h->sh->n) { X("sig=kf-c12-assign-clears line=%d what=%s assign raised %s but the target was cleared first: `%s` now has len %zu", lineno, kn, got, before, (size_t)n); n_x++; }
@@ -775,10 +976,10 @@ static void run_line(char* l, int lineno) {
       if (h->kind == K_LST && code == OP_CONCAT) sig = "kf-c12-list-concat-partial";
       if (sig) X("sig=%s line=%d what=%s %s raised %s and changed the object: `%s%s` -> `%s%s`", sig, lineno, kn, on, got, pub0.head, pub0.tail, pub1.head, pub1.tail);
       else X("sig=c12-%s-%s line=%d what=%s raised and the object changed: `%s%s` -> `%s%s`", kn, on, lineno, got, pub0.head, pub0.tail, pub1.head, pub1.tail);
-      n_x++; if (h->sh) shadow_sync(h);
+      n_x++; if (h->sh || h->nsh) shadow_sync(h);
     }
   }
-  if (h->sh) {
+  if (h->sh || h->nsh) {
     dump_ref(h, &ref1);
     if (strcmp(ref1.head, pub1.head) || strcmp(ref1.tail, pub1.tail)) {
       X("sig=c12-%s-%s-ref line=%d what=after the op the object is `%s%s`, the reference `%s%s`", kn, on, lineno, pub1.head, pub1.tail, ref1.head, ref1.tail);
